@@ -1,15 +1,15 @@
 """C09: see DESIGN.md section 3 C09."""
-from _ccmon import standard_plan, floor_msgs, COMMON_ASSUMPTIONS, EVOLVE_NOTE
+from _ccmon import standard_plan, floor_msgs, COMMON_ASSUMPTIONS, EVOLVE_NOTE, FAULT_NOTE
 
 LEVEL = "exploration"
 RULE = "histories are generated per shard from (seed, index) by harness/src/gen.rs (weights of mode C09: 35% weak operations (downgrade, clone, drop, Weak::new, re-downgrade), try_unwrap and new_cyclic raised) plus the directed corpus harness/src/directed.rs; each is executed against the real crate with all oracles on, followed by an epilogue that releases everything and collects until quiet. distinct = distinct expanded operation lists (FNV hash); non-trivial iff a weak side record outlived its box and a counting query was made on a Weak after the value's allocation was gone"
-RULE += EVOLVE_NOTE
+RULE += EVOLVE_NOTE + FAULT_NOTE
 ASSUMPTIONS = COMMON_ASSUMPTIONS
 FLOORS = {'oracle_weak_count_checks': 50000, 'side_record_outlived_box': 200, 'weak_queries_after_death': 200}
 
 
 def plan(ctx):
-    return standard_plan(ctx, "C09", mode="C09", need_weak=True)
+    return standard_plan(ctx, "C09", mode="C09", after_faults=True, need_weak=True)
 
 
 def floors(ctx, evaluations, distinct, counters, sets):
